@@ -392,7 +392,7 @@ func WellShaped(k Kind, r *rand.Rand, n int, fromNs, toNs int64) [][]driver.Valu
 				ts := fromNs + (span/int64(per+1))*int64(i)
 				switch k {
 				case KStreams:
-					out = append(out, []driver.Value{fps[s], cloneMap(l), str(), ts})
+					out = append(out, []driver.Value{fps[s], cloneMap(l), logLine(r, i), ts})
 				case KMatrix:
 					out = append(out, []driver.Value{fps[s], cloneMap(l), float64(r.Intn(100)) / 4, ts / 1e9 * 1e9})
 				case KPromSamples:
@@ -471,6 +471,22 @@ func WellShaped(k Kind, r *rand.Rand, n int, fromNs, toNs int64) [][]driver.Valu
 		out = append(out, []driver.Value{int64(12345), int64(3)})
 	}
 	return out
+}
+
+// logLine draws a stored log line: JSON objects and logfmt lines (so that Go-side parsers,
+// label filters and unwrap have something to work on) and free text.
+func logLine(r *rand.Rand, i int) string {
+	switch r.Intn(8) {
+	case 0, 1, 2:
+		return fmt.Sprintf(`{"x":"%d","v":%d,"n":"%d","level":"%s","a":{"b":[{"c":"d"}]},"msg":%s}`, i%3, r.Intn(100), r.Intn(10), pick(r, "err", "info"), strconv.Quote(SafeStr(r, 1, 12)))
+	case 3:
+		return fmt.Sprintf(`{"x":%d,"v":"%s","nested":{"v":%g}}`, i%3, pick(r, "5", "abc", "", "1e400", "NaN"), r.Float64())
+	case 4, 5:
+		return fmt.Sprintf(`x=%d v=%d level=%s msg="%s" n=%d`, i%3, r.Intn(100), pick(r, "err", "info"), SafeStr(r, 1, 12), r.Intn(10))
+	case 6:
+		return HostileStr(r, 3)
+	}
+	return SafeStr(r, 0, 20)
 }
 
 // Twist names a deviation of the result set from the well-shaped form.
